@@ -75,6 +75,36 @@ def main():
     calls = len(re.findall(r"state\.evaluation_failed = true;\s*keep_unvisited_wakeups\(\);", g))
     items["failKeepsWakeups"] = ("Bool", "true" if calls >= 2 else "false", "true", "found" if m else "pattern-missing")
 
+    def nat_item(name, pinned, found):
+        if found is None:
+            items[name] = ("Nat", str(pinned), str(pinned), "pattern-missing")
+        else:
+            items[name] = ("Nat", str(int(found)), str(pinned), "found")
+
+    # executor.cpp advance_realtime: drain cut-off and the next-evaluation-time formula  (C17)
+    ex = read("src/hgraph/runtime/executor.cpp")
+    nat_item("rtDrainLimit", 1024, one(r"constexpr std::uint32_t max_immediate_drain_cycles = (\d+);", ex))
+    m = re.search(r"if \(wall_now (>=|>) state\.end_time && next (<=|<) next_cycle &&\s*"
+                  r"state\.consecutive_immediate_cycles (>=|>) max_immediate_drain_cycles\)", ex)
+    cmp_item("rtCutWall", "ge", m.group(1) if m else None)
+    cmp_item("rtCutNext", "le", m.group(2) if m else None)
+    cmp_item("rtCutCount", "ge", m.group(3) if m else None)
+    shape = (re.search(r"const DateTime wall_or_next_cycle = std::max\(wall_now, next_cycle\);", ex) is not None and
+             re.search(r"const DateTime next = std::min\(target, wall_or_next_cycle\);", ex) is not None)
+    items["rtNextIsMinOfTargetAndMaxWallNext"] = ("Bool", "true" if shape else "false", "true", "found")
+
+    # push_source_node.cpp QueuePolicyStorage::full()  (C16)
+    ps = read("src/hgraph/runtime/push_source_node.cpp")
+    ms = re.findall(r"return max_pending != 0 && values\.size\(\) (>=|>) max_pending;", ps)
+    cmp_item("pqFull", "ge", ms[0] if ms and all(x == ms[0] for x in ms) else None)
+
+    # map_node.cpp: drain of the child schedule queue and the per-child due tests  (C10)
+    mp = read("src/hgraph/runtime/map_node.cpp")
+    ms = re.findall(r"child_schedule_queue\.front\(\)\.when (<=|<) evaluation_time", mp)
+    cmp_item("mapDrainDue", "le", ms[0] if len(ms) == 2 and ms[0] == ms[1] else None)
+    cmp_item("mapChildDue", "le", one(r"child\.next_scheduled_time\(\) (<=|<) evaluation_time \|\|", mp))
+    cmp_item("mapChildFuture", "gt", one(r"next != MAX_DT && next (>=|>) evaluation_time", mp))
+
     os.makedirs(os.path.dirname(OUT_JSON), exist_ok=True)
     lean = ["/- GENERATED by tools/extract.py from /repo on every run; do not edit. -/",
             "namespace HgVerif.Extracted", "",
